@@ -148,3 +148,122 @@ theorem assemble_eq (rts : List RT) : assemble rts = specRows rts := by
 
 end Vpp
 end KojenVerif
+
+namespace KojenVerif
+namespace Vpp
+open Str
+
+theorem filter_or_perm {α} (p q : α → Bool) (l : List α) (hd : ∀ x ∈ l, ¬ (p x = true ∧ q x = true)) :
+    (l.filter (fun x => p x || q x)).Perm (l.filter p ++ l.filter q) := by
+  induction l with
+  | nil => simp
+  | cons a l ih =>
+    have hl : ∀ x ∈ l, ¬ (p x = true ∧ q x = true) := fun x hx => hd x (by simp [hx])
+    have ha := hd a (by simp)
+    by_cases hp : p a = true
+    · have hq : q a = false := by
+        cases h : q a with
+        | false => rfl
+        | true => exact absurd ⟨hp, h⟩ ha
+      simp only [List.filter_cons, hp, hq, Bool.true_or, if_true, Bool.false_eq_true, if_false, List.cons_append]
+      exact List.Perm.cons a (ih hl)
+    · have hp' : p a = false := by simpa using hp
+      by_cases hq : q a = true
+      · simp only [List.filter_cons, hp', hq, Bool.false_or, if_true, Bool.false_eq_true, if_false]
+        exact (List.Perm.cons a (ih hl)).trans List.perm_middle.symm
+      · have hq' : q a = false := by simpa using hq
+        simp only [List.filter_cons, hp', hq', Bool.or_self, Bool.false_eq_true, if_false]
+        exact ih hl
+
+/-- partition by key: over a duplicate-free key list, the classes together are the elements
+    whose key is in the list -/
+theorem flatMap_filter_perm {α} (key : α → Str) (l : List α) (ks : List Str) (hk : ks.Nodup) :
+    (ks.flatMap (fun k => l.filter (fun x => key x == k))).Perm (l.filter (fun x => ks.contains (key x))) := by
+  induction ks with
+  | nil => simp
+  | cons k ks ih =>
+    have hk' : ks.Nodup := (List.nodup_cons.1 hk).2
+    have hnot : k ∉ ks := (List.nodup_cons.1 hk).1
+    simp only [List.flatMap_cons]
+    have e : (fun x => (k :: ks).contains (key x)) = (fun x => (key x == k) || ks.contains (key x)) := by
+      funext x
+      by_cases hx : key x = k <;> simp [hx]
+    rw [e]
+    refine (List.Perm.append_left _ (ih hk')).trans ?_
+    refine (filter_or_perm (fun x => key x == k) (fun x => ks.contains (key x)) l ?_).symm
+    intro x _ ⟨h1, h2⟩
+    have : key x = k := by simpa using h1
+    rw [this] at h2
+    exact hnot (by simpa using h2)
+
+theorem nodup_uniq (l : List Str) : (uniq l).Nodup := by
+  unfold uniq
+  have : ∀ (xs init : List Str), init.Nodup → (xs.foldl Table.addUniq init).Nodup := by
+    intro xs
+    induction xs with
+    | nil => intro init h; exact h
+    | cons x xs ih => intro init h; exact ih _ (Table.nodup_addUniq init x h)
+  exact this l [] List.nodup_nil
+
+theorem mem_uniq (l : List Str) (x : Str) : x ∈ uniq l ↔ x ∈ l := by
+  unfold uniq
+  have : ∀ (xs init : List Str), x ∈ xs.foldl Table.addUniq init ↔ x ∈ init ∨ x ∈ xs := by
+    intro xs
+    induction xs with
+    | nil => intro init; simp
+    | cons y xs ih =>
+      intro init
+      simp only [List.foldl_cons]
+      rw [ih, mem_addUniq]
+      simp only [List.mem_cons]
+      constructor
+      · rintro ((h | h) | h)
+        · exact Or.inl h
+        · exact Or.inr (Or.inl h)
+        · exact Or.inr (Or.inr h)
+      · rintro (h | h | h)
+        · exact Or.inl (Or.inl h)
+        · exact Or.inl (Or.inr h)
+        · exact Or.inr h
+  simpa using this l []
+
+/-- **exactly one row per transition that does not leave the initial pseudo-state** -/
+theorem specRows_perm (rts : List RT) : (specRows rts).Perm ((nonInit rts).map (·.row)) := by
+  unfold specRows
+  have h := flatMap_filter_perm (fun t : RT => t.src) (nonInit rts) (order rts) (nodup_uniq _)
+  have hall : (nonInit rts).filter (fun x => (order rts).contains x.src) = nonInit rts := by
+    apply List.filter_eq_self.2
+    intro x hx
+    have : x.src ∈ order rts := by
+      unfold order
+      rw [mem_uniq]
+      exact List.mem_append_right _ (List.mem_map.2 ⟨x, hx, rfl⟩)
+    simpa using this
+  rw [hall] at h
+  have := h.map (·.row)
+  simp only [List.map_flatMap] at this
+  exact this
+
+/-- the first group is the target of the (first) arrow leaving the initial pseudo-state -/
+theorem order_head (rts : List RT) (k : Str) (ks : List Str) (h : initTargets rts = k :: ks) :
+    (order rts).head? = some k := by
+  unfold order uniq
+  rw [h]
+  simp only [List.cons_append, List.foldl_cons]
+  have e : Table.addUniq [] k = [k] := by simp [Table.addUniq]
+  rw [e]
+  have : ∀ (xs init : List Str) (a : Str), (xs.foldl Table.addUniq (a :: init)).head? = some a := by
+    intro xs
+    induction xs with
+    | nil => intro init a; rfl
+    | cons x xs ih =>
+      intro init a
+      simp only [List.foldl_cons]
+      unfold Table.addUniq
+      by_cases hc : (a :: init).contains x = true
+      · simp only [hc, if_true]; exact ih init a
+      · simp only [hc, Bool.false_eq_true, if_false, List.cons_append]; exact ih _ a
+  exact this _ [] k
+
+end Vpp
+end KojenVerif
